@@ -22,17 +22,19 @@ package bcl
 // reads one varint from the stream: complete or an error, never a panic
 //@ func uvarintFromBuf
 //@   requires reader: r != nil
+//@   ghost rfail = g.rfail || result1 != nil
 //@   ensures [C13] complete_or_error: result1 == nil ==> old(g.rlen - g.rp) >= 1 && old(g.rlen - g.rp) >= uvneed(rbyte(old(g.rp)))
 //@   ensures [C09,C14] value: result1 == nil ==> result0 == uvstream(old(g.rp)) && g.rp == old(g.rp) + uvneed(rbyte(old(g.rp)))
-//@   ensures [C09] error_only_when_the_encoding_is_truncated: result1 != nil ==> old(g.rlen - g.rp) < 1 || old(g.rlen - g.rp) < uvneed(rbyte(old(g.rp)))
+//@   ensures [C09,C14] error_only_when_the_encoding_is_truncated: result1 != nil ==> old(g.rlen - g.rp) < 1 || old(g.rlen - g.rp) < uvneed(rbyte(old(g.rp)))
 //@   ensures [C13] no_new_short_read: result1 == nil ==> g.short == old(g.short)
 //@   ensures position: g.rp >= old(g.rp)
 //
 //@ func sizeFromBuf
 //@   requires reader: r != nil
+//@   ghost rfail = g.rfail || result1 != nil
 //@   ensures [C13] complete_or_error: result1 == nil ==> old(g.rlen - g.rp) >= 1 && old(g.rlen - g.rp) >= uvneed(rbyte(old(g.rp)))
 //@   ensures [C09,C14] value: result1 == nil ==> result0 == uvstream(old(g.rp)) && g.rp == old(g.rp) + uvneed(rbyte(old(g.rp))) && result0 <= 2147483647
-//@   ensures [C09] error_only_when_truncated_or_too_large: result1 != nil ==> old(g.rlen - g.rp) < 1 || old(g.rlen - g.rp) < uvneed(rbyte(old(g.rp))) || uvstream(old(g.rp)) > 2147483647
+//@   ensures [C09,C14] error_only_when_truncated_or_too_large: result1 != nil ==> old(g.rlen - g.rp) < 1 || old(g.rlen - g.rp) < uvneed(rbyte(old(g.rp))) || uvstream(old(g.rp)) > 2147483647
 //@   ensures [C13] no_new_short_read: result1 == nil ==> g.short == old(g.short)
 //@   ensures position: g.rp >= old(g.rp)
 //
@@ -52,6 +54,7 @@ package bcl
 // typed values: the decoder (complete payload or an error; value per documented layout)
 //@ func valueFromBuf
 //@   requires reader: r != nil
+//@   ghost rfail = g.rfail || result1 != nil
 //@   ensures [C13] no_new_short_read: result1 == nil ==> g.short == old(g.short)
 //@   ensures [C09,C14] int_value: (result1 == nil && rbyte(old(g.rp)) == byte(typeINT)) ==> result0 == VInt(int(u64toi64(uvstream(old(g.rp) + 1)))) && g.rp == old(g.rp) + 1 + uvneed(rbyte(old(g.rp) + 1))
 //@   ensures [C09,C14] float_value: (result1 == nil && rbyte(old(g.rp)) == byte(typeFLOAT)) ==> result0 == VFloat(ffrombits(be8(rbyte(old(g.rp)+1), rbyte(old(g.rp)+2), rbyte(old(g.rp)+3), rbyte(old(g.rp)+4), rbyte(old(g.rp)+5), rbyte(old(g.rp)+6), rbyte(old(g.rp)+7), rbyte(old(g.rp)+8)))) && g.rp == old(g.rp) + 9
@@ -59,7 +62,7 @@ package bcl
 //@   ensures [C09,C14] bool_value: (result1 == nil && rbyte(old(g.rp)) == byte(typeBOOL)) ==> result0 == VBool(rbyte(old(g.rp) + 1) != 0) && g.rp == old(g.rp) + 2
 //@   ensures [C09,C14] nil_value: (result1 == nil && rbyte(old(g.rp)) == byte(typeNIL)) ==> result0 == VNil() && g.rp == old(g.rp) + 1
 //@   ensures [C13,C14] known_type_or_error: result1 == nil ==> rbyte(old(g.rp)) <= byte(typeBOOL)
-//@   ensures [C09] error_only_when_truncated_or_invalid: result1 != nil ==> old(g.rlen - g.rp) < 1 || rbyte(old(g.rp)) > byte(typeBOOL) || (rbyte(old(g.rp)) == byte(typeINT) && (old(g.rlen - g.rp) < 2 || old(g.rlen - g.rp) < 1 + uvneed(rbyte(old(g.rp) + 1)))) || (rbyte(old(g.rp)) == byte(typeFLOAT) && old(g.rlen - g.rp) < 9) || (rbyte(old(g.rp)) == byte(typeBOOL) && old(g.rlen - g.rp) < 2) || (rbyte(old(g.rp)) == byte(typeSTR) && (old(g.rlen - g.rp) < 2 || old(g.rlen - g.rp) < 1 + uvneed(rbyte(old(g.rp) + 1)) || uvstream(old(g.rp) + 1) > 2147483647 || old(g.rlen - g.rp) < 1 + uvneed(rbyte(old(g.rp) + 1)) + int(uvstream(old(g.rp) + 1))))
+//@   ensures [C09,C14] error_only_when_truncated_or_invalid: result1 != nil ==> old(g.rlen - g.rp) < 1 || rbyte(old(g.rp)) > byte(typeBOOL) || (rbyte(old(g.rp)) == byte(typeINT) && (old(g.rlen - g.rp) < 2 || old(g.rlen - g.rp) < 1 + uvneed(rbyte(old(g.rp) + 1)))) || (rbyte(old(g.rp)) == byte(typeFLOAT) && old(g.rlen - g.rp) < 9) || (rbyte(old(g.rp)) == byte(typeBOOL) && old(g.rlen - g.rp) < 2) || (rbyte(old(g.rp)) == byte(typeSTR) && (old(g.rlen - g.rp) < 2 || old(g.rlen - g.rp) < 1 + uvneed(rbyte(old(g.rp) + 1)) || uvstream(old(g.rp) + 1) > 2147483647 || old(g.rlen - g.rp) < 1 + uvneed(rbyte(old(g.rp) + 1)) + int(uvstream(old(g.rp) + 1))))
 //@   ensures [C09,C06] decoded_values_are_storable: result1 == nil ==> storable(result0)
 //@   ensures position: g.rp >= old(g.rp)
 //
@@ -87,10 +90,11 @@ package bcl
 // Load: never panics, and succeeds only if no read came up short; the header is checked
 //@ func (*Prog).Load
 //@   ghost loaderr = err
-//@   requires fresh_stream: g.rp == 0 && !g.short && g.rlen >= 0
+//@   requires fresh_stream: g.rp == 0 && !g.short && g.rlen >= 0 && !g.rfail
 //@   ensures [C13] no_short_read_when_ok: err == nil ==> !g.short
 //@   ensures [C13,C14] header_checked: err == nil ==> g.rlen >= 4 && rbyte(0) == 252 && rbyte(1) == 108 && rbyte(2) == 1 && rbyte(3) <= 1
 //@   ensures [C09,C06] complete_program: err == nil ==> dumpable(prog)
+//@   ensures [C09,C14] beyond_the_header_refuses_only_a_short_stream_or_a_failed_decoder: err != nil ==> g.rfail || g.rp <= 4
 //@   assert [C09,C13] magic_missing_only_if_stream_short: at Errorf#1: g.short
 //@   assert [C09,C13] version_missing_only_if_stream_short: at Errorf#3: g.short
 //@   assert [C09,C13] name_short_only_if_stream_short: at Errorf#7: g.short
